@@ -1485,6 +1485,135 @@ def pure_return(unit, ctx, fn, lean, want, prop=False):
     return {"returns": ast.unparse(v)}
 
 
+class PFn(Fn):
+    """adds sets as values: `set(x)`, `set(a).intersection(b)`, `s1 == s2`, `len(<intersection>)`"""
+
+    def cx(self, n, env):
+        if isinstance(n, ast.Call) and isinstance(n.func, ast.Name) and n.func.id == "set" and len(n.args) == 1 and not n.keywords:
+            e, t = self.cx_atom(n.args[0], env)
+            if t != "list": raise self.err(f"set() of {t}")
+            return e, "set"
+        if isinstance(n, ast.Call) and isinstance(n.func, ast.Attribute) and n.func.attr == "intersection" and len(n.args) == 1 and not n.keywords:
+            a, ta = self.cx_atom(n.func.value, env); b, tb = self.cx_atom(n.args[0], env)
+            if ta != "set" or tb not in ("list", "set"): raise self.err(f"intersection of {ta},{tb}")
+            return f"setInter {a} {b}", "setd*"
+        if isinstance(n, ast.Call) and isinstance(n.func, ast.Name) and n.func.id == "len" and len(n.args) == 1:
+            e, t = self.cx_atom(n.args[0], env)
+            if t == "setd": return f"{e}.length", "nat*"
+            if t == "set": raise self.err("len of a set that may hold repeated insertions")
+        if isinstance(n, ast.Compare) and len(n.ops) == 1 and isinstance(n.ops[0], ast.Eq):
+            a, ta = self.cx_atom(n.left, env); b, tb = self.cx_atom(n.comparators[0], env)
+            if ta == "set" and tb == "set": return f"setEq {a} {b}", "bool*"
+        if isinstance(n, ast.Name) and n.id in env and env[n.id][1] in ("set", "setd"): return env[n.id]
+        return super().cx(n, env)
+
+    def cx_atom(self, n, env):
+        e, t = self.cx(n, env)
+        if t.endswith("*"): return f"({e})", t[:-1]
+        return e, t
+
+    def let(self, st, env, ind):
+        """`name = expr` -> one `let` line"""
+        if not (isinstance(st, ast.Assign) and len(st.targets) == 1 and isinstance(st.targets[0], ast.Name)): raise self.err(f"unsupported statement {ast.unparse(st)[:60]}")
+        e, t = self.cx(st.value, env)
+        t = t.rstrip("*")
+        x = self.fresh(); env[st.targets[0].id] = (x, t)
+        return f"{ind}let {x} := {e}"
+
+
+def _opt_return(f, v, env):
+    """value of a `return`: `None` -> none, an int -> some, `self.face_id(*s)` -> the optional id itself"""
+    if v is None or (isinstance(v, ast.Constant) and v.value is None): return "none"
+    if isinstance(v, ast.Call) and isinstance(v.func, ast.Attribute) and resolve(f.ctx, v.func) == ("conn", "face_id") and len(v.args) == 1 \
+            and isinstance(v.args[0], ast.Starred):
+        e, t = f.cx_atom(v.args[0].value, env)
+        if t not in ("list", "setd"): raise f.err(f"face_id(*x) of a {t}")
+        return f"m.faceId {e}"
+    e, t = f.cx_atom(v, env)
+    if t != "nat": raise f.err(f"returns a {t}")
+    return f"some {e}"
+
+
+def opt_function(unit, ctx, fn, lean):
+    """leading `name = expr` lets, then either a chain of `if c: return X` ending in `return Y`, or ONE loop
+    `for i, v in enumerate(L): [lets]; if c: return i` followed by `return None` (-> `find?` over the indices)"""
+    params = [a.arg for a in fn.args.args][1:]
+    if fn.args.vararg or fn.args.kwarg or fn.args.defaults: raise TranslateError(f"{fn.name}: signature")
+    f = PFn(unit, ctx, fn, lean)
+    env = {pn: (f.fresh(), "nat") for pn in params}
+    lines = []
+    body = _body(fn)
+    while body:
+        st = body.pop(0)
+        if isinstance(st, ast.Assign):
+            lines.append(f.let(st, env, "  ")); continue
+        if isinstance(st, ast.If) and not st.orelse and len(st.body) == 1 and isinstance(st.body[0], ast.Return):
+            c, tc = f.cx(st.test, env)
+            if tc.rstrip("*") != "bool": raise f.err("condition type")
+            if not c.startswith("("): c = f"({c})"
+            lines.append(f"  if {c} then {_opt_return(f, st.body[0].value, env)} else"); continue
+        if isinstance(st, ast.Return):
+            if body: raise f.err("statements after return")
+            lines.append(f"  {_opt_return(f, st.value, env)}"); break
+        if isinstance(st, ast.For):
+            ok = not st.orelse and isinstance(st.iter, ast.Call) and isinstance(st.iter.func, ast.Name) and st.iter.func.id == "enumerate" \
+                and len(st.iter.args) == 1 and isinstance(st.target, ast.Tuple) and len(st.target.elts) == 2 \
+                and all(isinstance(e, ast.Name) for e in st.target.elts) and len(body) == 1 and isinstance(body[0], ast.Return) \
+                and (body[0].value is None or (isinstance(body[0].value, ast.Constant) and body[0].value.value is None))
+            if not ok: raise f.err("loop is not `for i, v in enumerate(L): .. if c: return i` followed by `return None`")
+            L, tL = f.cx_atom(st.iter.args[0], env)
+            if tL != "list": raise f.err("enumerate of a non-list")
+            iname, vname = st.target.elts[0].id, st.target.elts[1].id
+            xi = f.fresh()
+            inner = dict(env); inner[iname] = (xi, "nat")
+            ilines = []
+            uses_v = any(isinstance(x, ast.Name) and x.id == vname for b in st.body for x in ast.walk(b))
+            if uses_v:
+                xv = f.fresh(); inner[vname] = (xv, "nat")
+                ilines.append(f"    let {xv} := {L}.getD {xi} 0")
+            sb = _strip(st.body)
+            for b in sb[:-1]: ilines.append(f.let(b, inner, "    "))
+            last = sb[-1]
+            if not (isinstance(last, ast.If) and not last.orelse and len(last.body) == 1 and isinstance(last.body[0], ast.Return)
+                    and isinstance(last.body[0].value, ast.Name) and last.body[0].value.id == iname):
+                raise f.err("the loop does not end with `if c: return <index>`")
+            c, tc = f.cx(last.test, inner)
+            if tc.rstrip("*") != "bool": raise f.err("loop condition type")
+            lines.append(f"  (List.range {L}.length).find? (fun {xi} =>")
+            lines += ilines
+            lines.append(f"    {c})")
+            body = []
+            break
+        raise f.err(f"unsupported statement {ast.unparse(st)[:60]}")
+    ps = " ".join(env[pn][0] for pn in params)
+    unit.text.append(f"/-- `{fn.name}` (`None` is `none`) -/\ndef {lean} (m : Mesh) ({ps} : Nat) : Option Nat :=\n" + "\n".join(lines) + "\n")
+    return {"lines": len(lines)}
+
+
+def guarded_star_flag(unit, fn, lean, attr, compute_lean, field):
+    """`is_edge_on_border(self, *args)`: guard on the flags, `if len(args)==1: return F[args[0]]`, `return F[edge_id(args[0], args[1])]`"""
+    if not fn.args.vararg or [a.arg for a in fn.args.args] != ["self"]: raise TranslateError(f"{fn.name}: signature")
+    av = fn.args.vararg.arg
+    body = _body(fn)
+    if len(body) != 3: raise TranslateError(f"{fn.name}: {len(body)} statements, 3 expected")
+    g = _guard(body[0], "mesh")
+    if g is None or g[0] != attr: raise TranslateError(f"{fn.name}: guard on self.{attr} not found")
+    fld = unit.fields_ext.get(attr)
+    if fld is None or fld != g[1]: raise TranslateError(f"{fn.name}: the guard calls {g[1]}, which is not the method that stores self.{attr}")
+    one, two = body[1], body[2]
+    t = one.test if isinstance(one, ast.If) else None
+    ok = isinstance(one, ast.If) and not one.orelse and len(one.body) == 1 and isinstance(one.body[0], ast.Return) and isinstance(t, ast.Compare) \
+        and len(t.ops) == 1 and isinstance(t.ops[0], ast.Eq) and {ast.unparse(t.left), ast.unparse(t.comparators[0])} == {f"len({av})", "1"} \
+        and ast.unparse(one.body[0].value) == f"self.{attr}[{av}[0]]"
+    ok = ok and isinstance(two, ast.Return) and ast.unparse(two.value) in (f"self.{attr}[self.connectivity.edge_id({av}[0], {av}[1])]",)
+    if not ok: raise TranslateError(f"{fn.name}: body not recognised")
+    src = f"({compute_lean} m).{field}"
+    unit.text.append(f"/-- `{fn.name}(e)` (one argument: an edge id): guarded read of the flag -/\ndef {lean} (m : Mesh) (x0 : Nat) : Bool :=\n  flagGet {src} x0\n")
+    unit.text.append(f"/-- `{fn.name}(u, v)` (two arguments: the end points): guarded read of the flag of `edge_id(u, v)` -/\n"
+                     f"def {lean}_pair (m : Mesh) (x0 x1 : Nat) : Bool :=\n  flagGet {src} (m.edgeIdD x0 x1)\n")
+    return {"reads": attr}
+
+
 def site_small():
     tree, _ = T.load(VOL)
     u = Unit()
@@ -1497,13 +1626,25 @@ def site_small():
         d[p_] = pure_return(u, "mesh", _get(tree, "VolumeMesh." + p_), p_, "list", prop=True)
     d["is_cell_tet"] = pure_return(u, "mesh", _get(tree, "VolumeMesh.is_cell_tet"), "is_cell_tet", "bool")
     d["is_tetrahedral"] = pure_return(u, "mesh", _get(tree, "VolumeMesh.is_tetrahedral"), "is_tetrahedral", "bool")
+    # round 8
+    for q in ("common_face", "in_cell_index", "in_cell_face_index"):
+        d[q] = opt_function(u, "conn", _get(tree, C + q), q)
+    # `_is_edge_on_border` is stored by `_compute_interior_boundary_edges` (checked on the source)
+    ce = _get(tree, "VolumeMesh._compute_interior_boundary_edges")
+    if not any(isinstance(x, ast.Attribute) and isinstance(x.ctx, ast.Store) and resolve("mesh", x) == ("own", "_is_edge_on_border") for x in ast.walk(ce)):
+        raise TranslateError("_compute_interior_boundary_edges does not store self._is_edge_on_border")
+    u.fields_ext = {"_is_edge_on_border": "_compute_interior_boundary_edges"}
+    d["is_edge_on_border"] = guarded_star_flag(u, _get(tree, "VolumeMesh.is_edge_on_border"), "is_edge_on_border", "_is_edge_on_border",
+                                               "C03S.compute_interior_boundary_edges", "is_edge_on_border")
     out = "namespace Mouette.Generated.C03P\nopen Mouette.Vol Mouette.VolS Mouette.Generated\n\n" + "\n".join(u.text) + "\nend Mouette.Generated.C03P\n"
     _, sha = T.write_generated("C03P", out, header=P_HEADER)
     return {"sha": sha, "functions": d}
 
 
 TRANSLATED_R7 = ["VolumeMesh._Connectivity.cell_to_vertex", "VolumeMesh._Connectivity.n_F2C", "VolumeMesh.id_vertices", "VolumeMesh.id_edges",
-                 "VolumeMesh.id_faces", "VolumeMesh.id_cells", "VolumeMesh.is_cell_tet", "VolumeMesh.is_tetrahedral"]
+                 "VolumeMesh.id_faces", "VolumeMesh.id_cells", "VolumeMesh.is_cell_tet", "VolumeMesh.is_tetrahedral",
+                 "VolumeMesh._Connectivity.common_face", "VolumeMesh._Connectivity.in_cell_index", "VolumeMesh._Connectivity.in_cell_face_index",
+                 "VolumeMesh.is_edge_on_border"]
 
 
 def _stub(name, ns, header, why):
